@@ -2,7 +2,7 @@
   Proofs/WF.lean — well-typedness (`Diagram.WF`) and its preservation by every operation
   of `Model/Diagram.lean`.
 -/
-import Model
+import Model.Expr
 
 namespace DV
 
